@@ -331,6 +331,9 @@ def assemble(unit, inst, contracts, outs):
             a.add("}", "item", o["id"])
         else:
             a.add(o["text"], "item", o["id"])
+    for n, t in read_fragments("glue", unit.get("glue_files", ""), inst):
+        a.add("// ===== glue/%s (spec vocabulary and lemmas over the extracted items)" % n, "glue")
+        a.add(t, "glue", "glue:" + n)
     glue = subst_vars(unit.get("glue", ""), inst)
     if glue.strip():
         a.add("// ===== glue: lemmas over the contracts above", "glue")
